@@ -6,10 +6,17 @@ wiring of the correspondence harness token (harness/src/bin/c04.rs):
 
 * pause flag = packages/contract-utils/src/pausable/storage.rs (`paused`, `pause`, `unpause`);
 * `AddressFrozen(a)` / `FrozenTokens(a)` persistent entries (absent = `false` / `0`);
-* the identity verifier and the compliance contract are ORACLES: `idOk`, `recTarget`,
-  `canTransfer`, `canCreate` are arbitrary functions stored in the state and replaced by
-  environment operations (`env*`); every call the token makes to them is logged
-  (`idCalls`, `compQueries`, and the notification log `notes` = transferred/created/destroyed);
+* the identity verifier is an ORACLE: `idOk`, `recTarget` are arbitrary functions stored in the
+  state and replaced by environment operations (`env*`); every call is logged (`idCalls`);
+* the compliance contract is the library's MODULAR compliance
+  (packages/tokens/src/rwa/compliance/storage.rs): per hook an ordered list of registered modules
+  (`mods`), `add_module_to` / `remove_module_from`, `can_transfer` / `can_create` = the loop over
+  the registered modules in registration order that stops at the first rejection (`consult`),
+  `transferred` / `created` / `destroyed` = `require_auth_from_bound_token` + fan-out to every
+  module registered for that hook; the token-binding is one flag (`bound`). The MODULES are
+  oracles (`modCanTransfer m`, `modCanCreate m`: arbitrary functions, replaced by `envModule`);
+  every call a module receives is logged (`modCalls`), every call the token makes to the
+  compliance contract is logged (`compQueries`, notification log `notes`);
 * operator policy of the harness token: `operator.require_auth()` and `operator == admin`.
 
 The model follows the code AFTER the `fix:` commit (transfer_from calls validate_transfer);
@@ -19,7 +26,21 @@ Import-free apart from the host and fungible models.
 namespace OZ.Rwa
 open OZ.Host OZ.Fungible
 
-/-- events of the token, in emission order -/
+/-- `ComplianceHook` -/
+inductive Hook where
+  | transferred | created | destroyed | canTransfer | canCreate
+  deriving DecidableEq, Repr
+
+/-- a call received by a compliance module (`ComplianceModuleClient`) -/
+inductive ModCall where
+  | canTransfer (frm to : Nat) (amount : Int)
+  | canCreate (to : Nat) (amount : Int)
+  | onTransfer (frm to : Nat) (amount : Int)
+  | onCreated (to : Nat) (amount : Int)
+  | onDestroyed (frm : Nat) (amount : Int)
+  deriving DecidableEq, Repr
+
+/-- events of the token (and module registration events of the compliance contract), in emission order -/
 inductive Ev where
   | base (e : Fungible.Event)                 -- mint / burn / transfer / approve
   | tokensFrozen (a : Nat) (amount : Int)
@@ -28,6 +49,8 @@ inductive Ev where
   | recoverySuccess (old new : Nat)
   | paused
   | unpaused
+  | moduleAdded (h : Hook) (m : Nat)
+  | moduleRemoved (h : Hook) (m : Nat)
   deriving DecidableEq, Repr
 
 /-- compliance hooks (`ComplianceClient::{transferred, created, destroyed}`) -/
@@ -58,24 +81,33 @@ structure State where
   -- oracles
   idOk : Nat → Bool
   recTarget : Nat → Option Nat
-  canTransfer : Nat → Nat → Int → Bool
-  canCreate : Nat → Int → Bool
+  -- the compliance contract: token binding and, per hook, the registered modules in order
+  bound : Bool
+  mods : Hook → List Nat
+  -- the modules' verdicts (oracles): module, from, to, amount / module, to, amount
+  modCanTransfer : Nat → Nat → Nat → Int → Bool
+  modCanCreate : Nat → Nat → Int → Bool
   -- logs, oldest first
   events : List Ev
   notes : List Note
   compQueries : List Query
   idCalls : List IdCall
+  modCalls : List (Nat × ModCall)
 
 def init (now admin : Nat) : State :=
   { base := Fungible.init now, admin := admin, paused := false, addrFrozen := fun _ => false,
     frozen := fun _ => 0, idOk := fun _ => true, recTarget := fun _ => none,
-    canTransfer := fun _ _ _ => true, canCreate := fun _ _ => true,
-    events := [], notes := [], compQueries := [], idCalls := [] }
+    bound := true, mods := fun _ => [],
+    modCanTransfer := fun _ _ _ _ => true, modCanCreate := fun _ _ _ => true,
+    events := [], notes := [], compQueries := [], idCalls := [], modCalls := [] }
 
 def emit (s : State) (ev : Ev) : State := { s with events := s.events ++ [ev] }
 def notify (s : State) (n : Note) : State := { s with notes := s.notes ++ [n] }
 def logQuery (s : State) (q : Query) : State := { s with compQueries := s.compQueries ++ [q] }
 def logId (s : State) (c : IdCall) : State := { s with idCalls := s.idCalls ++ [c] }
+/-- the modules `ms` each receive the call `c`, in that order -/
+def logMods (s : State) (ms : List Nat) (c : ModCall) : State :=
+  { s with modCalls := s.modCalls ++ ms.map (fun m => (m, c)) }
 
 /-- `if cond { panic_with_error!(..) }` as a guard: passes iff `c` holds -/
 def check (c : Prop) [Decidable c] (e : Err) : Except Err Unit := if c then .ok () else .error e
@@ -112,14 +144,40 @@ def getFreeTokens (s : State) (a : Nat) : Except Err Int := chk (s.base.bal a - 
 def verifyIdentity (s : State) (a : Nat) : Except Err State :=
   if s.idOk a = true then .ok (logId s (.verify a)) else .error .gate
 
-/-- `ComplianceClient::can_transfer` + `if !can_transfer { panic }`: logged query of the oracle -/
+/-- the loop of `compliance::can_transfer` / `can_create` over the registered modules:
+`for module in modules { if !module.verdict() { return false } } true`.
+Result: the modules that were called (in order) and the verdict. -/
+def consult (v : Nat → Bool) : List Nat → List Nat × Bool
+  | [] => ([], true)
+  | m :: ms => if v m = true then (m :: (consult v ms).1, (consult v ms).2) else ([m], false)
+
+/-- `compliance::can_transfer`: verdict and the modules consulted -/
+def compCanTransfer (s : State) (frm to : Nat) (amount : Int) : List Nat × Bool :=
+  consult (fun m => s.modCanTransfer m frm to amount) (s.mods .canTransfer)
+
+/-- `compliance::can_create` -/
+def compCanCreate (s : State) (to : Nat) (amount : Int) : List Nat × Bool :=
+  consult (fun m => s.modCanCreate m to amount) (s.mods .canCreate)
+
+/-- `ComplianceClient::can_transfer` + `if !can_transfer { panic }`: the query is logged, the
+consulted modules log their call -/
 def queryCanTransfer (s : State) (frm to : Nat) (amount : Int) : Except Err State :=
-  if s.canTransfer frm to amount = true then .ok (logQuery s (.canTransfer frm to amount))
+  if (compCanTransfer s frm to amount).2 = true then
+    .ok (logMods (logQuery s (.canTransfer frm to amount)) (compCanTransfer s frm to amount).1
+      (.canTransfer frm to amount))
   else .error .gate
 
 /-- `ComplianceClient::can_create` + `if !can_create { panic }` -/
 def queryCanCreate (s : State) (to : Nat) (amount : Int) : Except Err State :=
-  if s.canCreate to amount = true then .ok (logQuery s (.canCreate to amount)) else .error .gate
+  if (compCanCreate s to amount).2 = true then
+    .ok (logMods (logQuery s (.canCreate to amount)) (compCanCreate s to amount).1 (.canCreate to amount))
+  else .error .gate
+
+/-- `compliance::{transferred, created, destroyed}`: `require_auth_from_bound_token` (the token is
+the invoker; it must be bound), then every module registered for the hook is called once, in
+registration order -/
+def hook (s : State) (h : Hook) (c : ModCall) : Except Err State :=
+  if s.bound = true then .ok (logMods s (s.mods h) c) else .error .gate
 
 /-- the operator policy of the harness token -/
 def opAuth (s : State) (auth : List Nat) (operator : Nat) : Except Err Unit := do
@@ -141,6 +199,7 @@ def transfer (s : State) (auth : List Nat) (frm to : Nat) (amount : Int) : Excep
   requireAuth auth frm
   let s ← validateTransfer s frm to amount
   let s ← baseUpdate s (some frm) (some to) amount
+  let s ← hook s .transferred (.onTransfer frm to amount)
   pure (emit (notify s (.transferred frm to amount)) (.base (.transfer frm to amount)))
 
 /-- `RWA::transfer_from` (after the fix: `validate_transfer` right after `spender.require_auth()`) -/
@@ -150,6 +209,7 @@ def transferFrom (c : Cfg) (s : State) (auth : List Nat) (spender frm to : Nat) 
   let s ← validateTransfer s frm to amount
   let s ← baseSpend c s frm spender amount
   let s ← baseUpdate s (some frm) (some to) amount
+  let s ← hook s .transferred (.onTransfer frm to amount)
   pure (emit (notify s (.transferred frm to amount)) (.base (.transfer frm to amount)))
 
 /-- `RWA::transfer_from` as it was before the fix: no `validate_transfer` at all -/
@@ -158,6 +218,7 @@ def legacyTransferFrom (c : Cfg) (s : State) (auth : List Nat) (spender frm to :
   requireAuth auth spender
   let s ← baseSpend c s frm spender amount
   let s ← baseUpdate s (some frm) (some to) amount
+  let s ← hook s .transferred (.onTransfer frm to amount)
   pure (emit (notify s (.transferred frm to amount)) (.base (.transfer frm to amount)))
 
 /-- `Base::approve` (the RWA flavour does not override it) -/
@@ -181,6 +242,7 @@ def forcedTransfer (s : State) (frm to : Nat) (amount : Int) : Except Err State 
   check (¬ s.base.bal frm < amount) .insufficientBalance
   let s ← unfreezeFor s frm amount
   let s ← baseUpdate s (some frm) (some to) amount
+  let s ← hook s .transferred (.onTransfer frm to amount)
   pure (emit (notify s (.transferred frm to amount)) (.base (.transfer frm to amount)))
 
 /-- `RWA::mint` -/
@@ -188,6 +250,7 @@ def mint (s : State) (to : Nat) (amount : Int) : Except Err State := do
   let s ← verifyIdentity s to
   let s ← queryCanCreate s to amount
   let s ← baseUpdate s none (some to) amount
+  let s ← hook s .created (.onCreated to amount)
   pure (emit (notify s (.created to amount)) (.base (.mint to amount)))
 
 /-- `RWA::burn` -/
@@ -195,6 +258,7 @@ def burn (s : State) (a : Nat) (amount : Int) : Except Err State := do
   check (¬ amount > s.base.bal a) .insufficientBalance
   let s ← unfreezeFor s a amount
   let s ← baseUpdate s (some a) none amount
+  let s ← hook s .destroyed (.onDestroyed a amount)
   pure (emit (notify s (.destroyed a amount)) (.base (.burn a amount)))
 
 /-- `RWA::set_address_frozen` -/
@@ -259,7 +323,33 @@ def unpause (s : State) : Except Err State := do
   check (s.paused = true) .gate
   pure (emit { s with paused := false } .unpaused)
 
-/-! ### the harness token as a state machine -/
+/-! ### the compliance contract's administration -/
+
+/-- `MAX_MODULES` -/
+def MAX_MODULES : Nat := 20
+
+/-- `compliance::add_module_to` -/
+def addModule (s : State) (h : Hook) (m : Nat) : Except Err State := do
+  check (m ∉ s.mods h) .gate
+  check (¬ (s.mods h).length ≥ MAX_MODULES) .gate
+  pure (emit { s with mods := fun k => if k = h then s.mods h ++ [m] else s.mods k } (.moduleAdded h m))
+
+/-- `compliance::remove_module_from` -/
+def removeModule (s : State) (h : Hook) (m : Nat) : Except Err State := do
+  check (m ∈ s.mods h) .gate
+  pure (emit { s with mods := fun k => if k = h then (s.mods h).erase m else s.mods k } (.moduleRemoved h m))
+
+/-- `token_binder::bind_token` for the one token of the harness -/
+def bindToken (s : State) : Except Err State := do
+  check (s.bound = false) .gate
+  pure { s with bound := true }
+
+/-- `token_binder::unbind_token` -/
+def unbindToken (s : State) : Except Err State := do
+  check (s.bound = true) .gate
+  pure { s with bound := false }
+
+/-! ### the harness token (and its compliance contract) as a state machine -/
 
 inductive Op where
   -- holder-initiated
@@ -280,7 +370,13 @@ inductive Op where
   | advance (n : Nat)
   | envIdOk (a : Nat) (ok : Bool)
   | envRecTarget (a : Nat) (t : Option Nat)
-  | envCompliance (canTransfer : Nat → Nat → Int → Bool) (canCreate : Nat → Int → Bool)
+  | envModule (m : Nat) (canTransfer : Nat → Nat → Int → Bool) (canCreate : Nat → Int → Bool)
+  -- administration of the compliance contract (`Compliance` / `TokenBinder` entry points of the
+  -- harness compliance contract: `opAuth`, then the library function)
+  | addModule (h : Hook) (m : Nat) (operator : Nat)
+  | removeModule (h : Hook) (m : Nat) (operator : Nat)
+  | bindToken (operator : Nat)
+  | unbindToken (operator : Nat)
 
 /-- one invocation with the authorizing addresses `auth`; the Bool is `recover_balance`'s
 return value (`true` for every other operation) -/
@@ -300,7 +396,12 @@ def applyRet (c : Cfg) (s : State) (auth : List Nat) : Op → Except Err (State 
   | .advance n => pure ({ s with base := { s.base with now := s.base.now + n } }, true)
   | .envIdOk a ok => pure ({ s with idOk := upd s.idOk a ok }, true)
   | .envRecTarget a t => pure ({ s with recTarget := upd s.recTarget a t }, true)
-  | .envCompliance ct cc => pure ({ s with canTransfer := ct, canCreate := cc }, true)
+  | .envModule m ct cc =>
+    pure ({ s with modCanTransfer := upd s.modCanTransfer m ct, modCanCreate := upd s.modCanCreate m cc }, true)
+  | .addModule h m op => do opAuth s auth op; let s ← addModule s h m; pure (s, true)
+  | .removeModule h m op => do opAuth s auth op; let s ← removeModule s h m; pure (s, true)
+  | .bindToken op => do opAuth s auth op; let s ← bindToken s; pure (s, true)
+  | .unbindToken op => do opAuth s auth op; let s ← unbindToken s; pure (s, true)
 
 def apply (c : Cfg) (s : State) (auth : List Nat) (op : Op) : Except Err State :=
   match applyRet c s auth op with
@@ -351,6 +452,10 @@ def Op.required : Op → List Nat
   | .setAddressFrozen _ _ op => [op]
   | .pause op => [op]
   | .unpause op => [op]
+  | .addModule _ _ op => [op]
+  | .removeModule _ _ op => [op]
+  | .bindToken op => [op]
+  | .unbindToken op => [op]
   | _ => []
 
 /-- the compliance notification an operation owes when it succeeds from state `s` -/
